@@ -20,6 +20,7 @@
   Python `str`/`bytes` is `Tranp.Str`.
 -/
 import Tranp.Str
+import Tranp.Generated.LarkCache
 
 namespace Tranp.CacheFS
 open Tranp
@@ -49,8 +50,9 @@ def Dir.paths (d : Dir) : List Str := d.map (·.1)
 /-- Everything tranp delegates to md5, lark, the analyser and the renderer. -/
 structure Sem where
   /-- `md5(str({'grammar_mtime': g, 'grammar': path, 'start': …, 'algorithem': …, 'mtime': t}))` (parser.py:100-106, since
-      9dfb5b4), arguments: grammar path, start, algorithm, grammar mtime, source mtime -/
-  treeIdent : Str → Str → Str → Nat → Nat → Str
+      9dfb5b4), arguments: grammar path, start, algorithm, grammar mtime, source mtime, and the source's content hash when the
+      identity dictionary has the key `hash` (`treeHashArg`; `[]` otherwise) -/
+  treeIdent : Str → Str → Str → Nat → Nat → Str → Str
   /-- `md5(str({'mtime': g, 'grammar': path, 'start': …, 'algorithem': …}))` (parser.py:63-68), arguments: grammar path,
       start, algorithm, grammar mtime -/
   parserIdent : Str → Str → Str → Nat → Str
@@ -95,7 +97,14 @@ def cachePath (key ident ext : Str) : Str := key ++ '-' :: (ident ++ ext)
 /-- `f'{basepath}-symbols-{identity}.json'` -/
 def symPath (key ident : Str) : Str := key ++ (symInfix ++ (ident ++ jsonExt))
 
-def treePath (S : Sem) (key : Str) (gp st al : Str) (g t : Nat) : Str := cachePath key (S.treeIdent gp st al g t) jsonExt
+/-- Does the identity dictionary of the tree files (parser.py `__load_entry`, read from the source on every run:
+    `Generated/LarkCache.treeIdentity`) carry the key `hash` (the content hash of the source, `self.__sources.hash(source_path)`)? -/
+def treeKeyHasHash : Bool := Generated.LarkCache.treeIdentity.any (fun kv => kv.1 == ['h', 'a', 's', 'h'])
+
+/-- the content-hash component of a tree identity: the md5 of the source bytes if the code's dictionary has it, nothing otherwise -/
+def treeHashArg (S : Sem) (data : Str) : Str := if treeKeyHasHash then S.hash data else []
+
+def treePath (S : Sem) (key : Str) (gp st al : Str) (g t : Nat) (h : Str) : Str := cachePath key (S.treeIdent gp st al g t h) jsonExt
 def parserPath (S : Sem) (gp st al : Str) (g : Nat) : Str := cachePath parserKey (S.parserIdent gp st al g) binExt
 
 /-- `'-'.join(cache_path.split('-')[:-1])` (cache.py:160-161) -/
@@ -237,7 +246,7 @@ def treeGet (S : Sem) (s : Sess) (key : Str) : Sess × Option Str :=
   | (s, some pz) =>
     match s.w.srcs.get? key with
     | none => (s.fail .noSource, none)
-    | some src => cacheGet S s (dirname key) key (S.treeIdent s.w.grammar s.w.start s.w.algo s.w.grammarMtime src.mtime) jsonExt (S.parse pz src.data) false
+    | some src => cacheGet S s (dirname key) key (S.treeIdent s.w.grammar s.w.start s.w.algo s.w.grammarMtime src.mtime (treeHashArg S src.data)) jsonExt (S.parse pz src.data) false
 
 def pyExt : Str := ['.', 'p', 'y']
 
